@@ -314,7 +314,7 @@ Proof.
   assert (Hm : decode_pex (BDict (map evv es)) = Some (a4 ++ a6, map clear_flags (d4 ++ d6))).
   { subst es. unfold pex_entries, decode_pex. cbv zeta. fold a4 a6 d4 d6. unfold oent, evv, se.
     destruct (nonempty a4) eqn:N1, (nonempty a6) eqn:N2, (nonempty d4) eqn:N3, (nonempty d6) eqn:N4;
-      cbn [app map en_key en_val fold_opt]; unfold pex_field; eval_keys; cbn [as_bytes_field is_empty_list];
+      cbn [app map en_key en_val fold_opt]; unfold pex_field; eval_keys; cbn [as_bytes_field is_list];
       cbn [x_added x_addedf x_added6 x_added6f x_dropped x_dropped6 pexraw_zero];
       try (apply nonempty_false in N1; rewrite N1); try (apply nonempty_false in N2; rewrite N2);
       try (apply nonempty_false in N3; rewrite N3); try (apply nonempty_false in N4; rewrite N4);
@@ -397,7 +397,7 @@ Lemma fold_opt_app {A B} (f : A -> B -> option A) l1 : forall a l2,
   fold_opt f a (l1 ++ l2) = match fold_opt f a l1 with Some a' => fold_opt f a' l2 | None => None end.
 Proof. induction l1 as [|x r IH]; intros a l2; cbn [app fold_opt]; [reflexivity|]. destruct (f a x); [apply IH|reflexivity]. Qed.
 
-Ltac step_tac := unfold raw_upto; cbn [Nat.leb oent map fold_opt]; unfold evv, ie, se, me; cbn [en_key en_val]; unfold ext0_field; eval_keys; cbn [as_bytes_field is_empty_list].
+Ltac step_tac := unfold raw_upto; cbn [Nat.leb oent map fold_opt]; unfold evv, ie, se, me; cbn [en_key en_val]; unfold ext0_field; eval_keys; cbn [as_bytes_field is_list].
 
 Lemma fold_chain {A B} (f : A -> B -> option A) a l1 l2 a1 :
   fold_opt f a l1 = Some a1 -> fold_opt f a (l1 ++ l2) = fold_opt f a1 l2.
